@@ -129,6 +129,15 @@ pub fn judge(case: &Case, l: &mut Local) {
             l.check("vector cw and ccw directed angles sum to a full turn or are both zero", "", (sum - TAU).abs() <= 1e-12 || sum.abs() <= 1e-12, mk, || {
                 format!("{:?} {:?}: cw {:e} ccw {:e}", v1, v2, cw, ccw)
             });
+            // angles do not depend on the lengths of the vectors: the same pair, very short and very long
+            for (s1, s2) in [(1e-7, 1e-7), (1e-9, 1e3), (1e6, 1e-6), (1e5, 1e5)] {
+                l.eval();
+                let (w1, w2) = (v1 * s1, v2 * s2);
+                let (ss, scw, sccw) = (signed_angle(&w1, &w2), directed_angle(&w1, &w2, AngleDir::Cw), directed_angle(&w1, &w2, AngleDir::Ccw));
+                let close = |a: f64, b: f64| (a - b).abs() <= 1e-9 || ((a - b).abs() - TAU).abs() <= 1e-9;
+                l.bucket("vector pair at another length");
+                l.check("vector angles do not depend on the lengths of the vectors", "", close(ss, s) && close(scw, cw) && close(sccw, ccw), mk, || format!("{:?} {:?} scaled by {:e}, {:e}: signed {:e} vs {:e}, cw {:e} vs {:e}, ccw {:e} vs {:e}", v1, v2, s1, s2, ss, s, scw, cw, sccw, ccw));
+            }
         }
         "ivl" => {
             let ex = extents();
@@ -254,7 +263,7 @@ pub fn run(tier: Tier) -> i32 {
     let mut cx = Ctx::new("C18", tier, "exploration");
     cx.rule = "angle alphabet {k*pi/4, k=-16..16} with +-1 ulp neighbours plus tiny (1e-20, 1e-13), ordinary and huge (1e6) values: every angle, every ordered pair x both directions, every (start, extent) interval x every test angle, every pair of intervals; 56 vectors (16 directions x 3 lengths + exact axes/diagonals): every ordered pair; scalar bounds {-inf,-2,-1,0,0,1,3,+inf}: every interval, every pair of intervals, every bound +-1 ulp as test value. distinct = distinct (kind, i, j) cases; both tiers enumerate the same complete space".into();
     cx.bounds = json!({"angles": angles().len(), "extents": extents().len(), "vectors": vectors().len(), "scalar_bounds": bounds().len()});
-    cx.require(&["huge angle", "tiny angle", "ordinary or boundary angle", "equal vectors", "opposite vectors", "general vector pair", "negative extent", "zero extent", "positive extent", "degenerate interval", "infinite bound", "finite interval"]);
+    cx.require(&["huge angle", "tiny angle", "ordinary or boundary angle", "equal vectors", "opposite vectors", "general vector pair", "vector pair at another length", "negative extent", "zero extent", "positive extent", "degenerate interval", "infinite bound", "finite interval"]);
     cx.assume("direction equality judged on sin/cos within 8 ulp * (1+|a|); interval membership gray within 1e-9*(1+|a|+|start|) of an end, except that the stored ends themselves must be contained");
     let cs = cases(tier);
     let l = sweep(&cs, |c, l| {
